@@ -342,3 +342,70 @@ def r8_publication_fanout(ctx):
 
 RULES = [r1_pairing_after_yield, r2_gpu_cpu_lists, r_transfer_source, r4_consider_computable, r5_act, r6_worker_deferral,
          r7_reidle, r8_publication_fanout, r_last_output_order]
+
+
+def r9_executor_routing(ctx):
+    """C02.R9: the executor hands a TaskSequence to the addressed worker (and refuses it when that worker process is gone), remembers
+    published datasets, forwards a purge of a known dataset to every worker and its data server, and answers ExecutorShutdown with
+    ExecutorExit + terminate."""
+    repo = ctx.repo
+    fi = repo.func("cascade.executor.executor.Executor.recv_loop")
+    ctx.analysed(fi.qual)
+    M = "cascade.executor.msg."
+    W1, W2 = worker("H1", "w0"), worker("H1", "w1")
+    D = ds("D", "T")
+
+    def explore(msg, workers, datasets=()):
+        ip = Interp(repo, max_while=1, inline={"cascade.executor.runner.entrypoint.worker_address"}, call_models={
+            "cascade.executor.comms.Listener.recv_messages": lambda run, a, k, n, f: [msg] if not getattr(run, "model_sent", False) and not setattr(run, "model_sent", True) else []})
+        env = {"self.workers": workers, "self.terminating": False, "self.datasets": set(datasets), "self.daddress": "my-daddr", "self.host": "H1"}
+        return ip.explore(fi, env=env)
+
+    alive = lambda: {W1: Obj("P", {"exitcode": None}, name="p1"), W2: Obj("P", {"exitcode": None}, name="p2")}
+    ts = Obj(M + "TaskSequence", {"worker": W2, "tasks": ["t"], "publish": set()}, name="TS")
+    for state, workers in (("alive", alive()), ("exited", {W1: Obj("P", {"exitcode": None}, name="p1"), W2: Obj("P", {"exitcode": 1}, name="p2")}),
+                           ("never started", {W1: Obj("P", {"exitcode": None}, name="p1"), W2: None})):
+        paths = explore(ts, workers)
+        ctx.evals(len(paths))
+        for p in paths:
+            fw = [e for e in p.effects if is_call(e, qual="cascade.executor.comms.callback") and len(e.data["args"]) > 1 and getattr(e.data["args"][1], "name", "") == "TS"]
+            rep = [e for e in p.effects if is_call(e, qual="cascade.executor.executor.Executor.to_controller") and isinstance(e.data["args"][0], Obj)
+                   and e.data["args"][0].cls == M + "ExecutorFailure"]
+            if state == "alive":
+                good = len(fw) == 1 and "W_`H1`_w1" in vkey(fw[0].data["args"][0]) and not rep
+                exp = "handed to exactly that worker"
+            else:
+                good = not fw and len(rep) == 1
+                exp = "refused and reported as ExecutorFailure (the task would never run and the run would wait for ever)"
+            if not good:
+                ctx.violation("C02.R9", fi.qual, loc(fi), f"task sequence for a worker that is {state}",
+                              f"a TaskSequence addressed to worker w1 ({state}): forwarded to {[vkey(e.data['args'][0])[:50] for e in fw]}, failure reports {len(rep)}; expected: {exp}")
+            else:
+                ctx.ok("C02.R9", loc(fi), f"TaskSequence for a worker that is {state}: {exp}")
+    pub = Obj(M + "DatasetPublished", {"origin": W1, "ds": D, "transmit_idx": None}, name="PUB")
+    for p in explore(pub, alive()):
+        if D not in p.heap["self.datasets"]:
+            ctx.violation("C02.R9", fi.qual, loc(fi), "published dataset remembered", "a published dataset is not recorded by the executor: a later purge of it is ignored as 'unexpected'")
+        else:
+            ctx.ok("C02.R9", loc(fi), "published dataset remembered by the executor")
+    pg = Obj(M + "DatasetPurge", {"ds": D}, name="PG")
+    for known in (True, False):
+        for p in explore(pg, alive(), [D] if known else []):
+            cbs = [vkey(e.data["args"][0]) for e in p.effects if is_call(e, qual="cascade.executor.comms.callback") and len(e.data["args"]) > 1 and getattr(e.data["args"][1], "name", "") == "PG"]
+            want = 3 if known else 0
+            if len(cbs) != want or (known and ("'my-daddr'" not in cbs or D in p.heap["self.datasets"])):
+                ctx.violation("C02.R9", fi.qual, loc(fi), f"purge of a {'known' if known else 'unknown'} dataset",
+                              f"DatasetPurge of a {'known' if known else 'unknown'} dataset is forwarded to {cbs} (expected {'both workers and the data server, and the dataset forgotten' if known else 'nobody'})")
+            else:
+                ctx.ok("C02.R9", loc(fi), f"purge of a {'known' if known else 'unknown'} dataset: forwarded to {want} recipients")
+    sd = Obj(M + "ExecutorShutdown", {}, name="SD")
+    for p in explore(sd, alive()):
+        ex = [e for e in p.effects if is_call(e, qual="cascade.executor.executor.Executor.to_controller") and isinstance(e.data["args"][0], Obj) and e.data["args"][0].cls == M + "ExecutorExit"]
+        tm = [e for e in p.effects if is_call(e, qual="cascade.executor.executor.Executor.terminate")]
+        if len(ex) != 1 or not tm or tm[0].seq < ex[0].seq:
+            ctx.violation("C02.R9", fi.qual, loc(fi), "shutdown command", f"ExecutorShutdown: ExecutorExit reports {len(ex)}, terminate calls {len(tm)} (expected ExecutorExit then terminate)")
+        else:
+            ctx.ok("C02.R9", loc(fi), "ExecutorShutdown -> ExecutorExit reported, then terminate")
+
+
+RULES.append(r9_executor_routing)
